@@ -71,11 +71,7 @@ def detect(d, checks, tag="x"):
         assert r.returncode == 0, r.stderr
         env = dict(os.environ, MC_REPO=wt, PYTHONPATH=wt)
         for c in checks:
-            ev = f"/verif/evidence/{c}.json"
-            keep = open(ev).read() if os.path.exists(ev) else None
             p = sh([PY, "-m", "mc.run", c, "--tier", "quick"], cwd="/verif", timeout=7200, env=env)
-            if keep is not None:
-                open(ev, "w").write(keep)  # evidence files only ever describe runs against /repo itself
             lines = p.stdout.strip().splitlines()
             viol = [l for l in lines if l.startswith("  violation")][:3]
             res[c] = {"exit": p.returncode, "summary": lines[-1] if lines else "", "first_violations": [v[:400] for v in viol]}
